@@ -9,6 +9,7 @@
 #include <inttypes.h>
 #include "qlibc.h"
 #include "vfc.h"
+#include <limits.h>
 /* the print helpers (debug()) run on real contents now and then: C11 covers what they read */
 static FILE *DEVNULL; static unsigned long DBGCTR;
 #define DEBUG_NOW() (((++DBGCTR) % 61) == 0 && (DEVNULL || (DEVNULL = fopen("/dev/null", "w"))))
@@ -39,10 +40,13 @@ static void m_del(int pos) { hm_free(M[pos].d); memmove(&M[pos], &M[pos + 1], si
 static void m_clear(void) { while (MN) m_del(MN - 1); }
 static size_t m_sum(void) { size_t s = 0; for (int i = 0; i < MN; i++) s += M[i].n; return s; }
 
-static unsigned char VBUF[300]; static long valctr;
+static unsigned char VBUF[4400]; static long valctr;
+/* lengths at which internal buffers and fast paths change behaviour (a fixed stack buffer, a first allocation step, a slot payload) */
+static const unsigned short EDGE_LEN[] = {15, 16, 17, 31, 32, 33, 63, 64, 65, 127, 128, 129, 255, 256, 257, 511, 512, 513, 1022, 1023, 1024, 1025, 1026, 2047, 2048, 2049, 4095, 4096, 4097};
 /* kind: 0 arbitrary bytes, 1 C string (with terminator), 2 only NUL bytes, 3 trailing NULs, 4 embedded NULs */
 static size_t gen_value(int kind) {
     size_t l = 1 + rng_below(&R, rng_chance(&R, 1, 10) ? 250 : 12);
+    if (rng_chance(&R, 1, 16)) { l = EDGE_LEN[rng_below(&R, sizeof EDGE_LEN / sizeof EDGE_LEN[0])]; if (kind == 1) l += rng_below(&R, 2); vf_count("values_of_edge_length", 1); }   /* for strings: the text, or the text plus its terminator, has that length */
     valctr++;
     for (size_t i = 0; i < l; i++) VBUF[i] = (unsigned char)(1 + rng_below(&R, 255));
     VBUF[0] = (unsigned char)('!' + valctr % 90);
@@ -211,6 +215,7 @@ static void history_list(long caseno) {
     for (int op = 0; op < nops && !abandon; op++) {
         uint32_t c = rng_below(&R, 100);
         int idx = (int)rng_below(&R, (uint32_t)(2 * MN + 5)) - MN - 2;
+        if (rng_chance(&R, 1, 25)) { static const int X[] = {INT_MIN, INT_MIN + 1, INT_MAX, INT_MAX - 1, -1000000007, 1 << 30, -(1 << 30), 65536, -65536}; idx = X[rng_below(&R, 9)]; vf_count("extreme_indexes", 1); }   /* refused like any other out-of-range index */
         if (c < 12) l_add(L, 0, 0);
         else if (c < 26) l_add(L, 1, 0);
         else if (c < 40) l_add(L, 2, idx);
@@ -290,7 +295,8 @@ static void history_qs(long caseno, bool is_stack) {
                    if (d && newmem) free(d); }
             vf_count("get_front", 1);
         } else if (c < 90) {   /* getat / popat with any index */
-            int idx = (int)rng_below(&R, (uint32_t)(2 * MN + 5)) - MN - 2; int pos = idx < 0 ? MN + idx : idx; bool ok = pos >= 0 && pos < MN;
+            int idx = (int)rng_below(&R, (uint32_t)(2 * MN + 5)) - MN - 2; if (rng_chance(&R, 1, 25)) { idx = (int[]){INT_MIN, INT_MIN + 1, INT_MAX, -1000000007, 1 << 30}[rng_below(&R, 5)]; vf_count("extreme_indexes", 1); }
+            long pos = idx < 0 ? (long)MN + idx : idx; bool ok = pos >= 0 && pos < MN;
             bool pop = rng_chance(&R, 1, 2); bool newmem = pop ? true : rng_chance(&R, 1, 2); size_t sz = 0;
             vf_log("%s(%d) n=%d", pop ? "popat" : "getat", idx, MN);
             errno = 0;
